@@ -139,12 +139,12 @@ func (w *world) checkRead(st *step) {
 			c.out = oCtxErr
 		}
 		if w.r.Tracing() {
-			w.r.Logf("  call %d %s %s -> out=%d got=%+v err=%v own=%d ctx-ended=%v", c.id, readKindNames[c.kind], c.cx.String(), c.out, c.got, c.err, len(c.own), c.cx.died())
+			w.r.Logf("  call %d %s %s -> out=%d got=%+v err=%v own=%d ctx-ended=%v", c.id, w.rn(c), c.cx.String(), c.out, c.got, c.err, len(c.own), c.cx.died())
 		}
 		// (4) the error of one's own failed query is what one gets back
 		for _, x := range c.own {
 			if x.inj && !errors.Is(c.err, x.err) {
-				w.fail("db-error-swallowed", "call %d (%s): its own database query failed with %q but the call returned (%+v, %v)", c.id, readKindNames[c.kind], x.err, c.got, c.err)
+				w.fail("db-error-swallowed", "call %d (%s): its own database query failed with %q but the call returned (%+v, %v)", c.id, w.rn(c), x.err, c.got, c.err)
 			}
 		}
 		switch c.out {
@@ -152,15 +152,15 @@ func (w *world) checkRead(st *step) {
 			switch {
 			case c.got == cur && ent.ver != 0:
 			case ent.ver == 0 && !stale:
-				w.fail("read-mismatch:row-for-absent", "call %d (%s) returned row %+v, the database holds no such row", c.id, readKindNames[c.kind], c.got)
+				w.fail("read-mismatch:row-for-absent", "call %d (%s) returned row %+v, the database holds no such row", c.id, w.rn(c), c.got)
 			case c.got.ID == ent.id && c.got.Name == ent.name && c.got.Ver != 0 && inHist(ent, c.got.Ver):
 				if !stale {
-					w.fail("read-mismatch:stale-row", "call %d (%s) returned version %d, the database holds version %d", c.id, readKindNames[c.kind], c.got.Ver, ent.ver)
+					w.fail("read-mismatch:stale-row", "call %d (%s) returned version %d, the database holds version %d", c.id, w.rn(c), c.got.Ver, ent.ver)
 				} else {
 					w.r.Probe("stale-read-while-invalidation-pending")
 				}
 			default:
-				w.fail("read-mismatch:garbage-row", "call %d (%s) returned %+v which the database never held (now %+v)", c.id, readKindNames[c.kind], c.got, cur)
+				w.fail("read-mismatch:garbage-row", "call %d (%s) returned %+v which the database never held (now %+v)", c.id, w.rn(c), c.got, cur)
 			}
 		case oNotFound:
 			switch {
@@ -174,12 +174,12 @@ func (w *world) checkRead(st *step) {
 			case stale && inHist(ent, 0):
 				w.r.Probe("stale-read-while-invalidation-pending")
 			default:
-				w.fail("read-mismatch:notfound-for-present", "call %d (%s) returned the not-found error, the database holds %+v", c.id, readKindNames[c.kind], cur)
+				w.fail("read-mismatch:notfound-for-present", "call %d (%s) returned the not-found error, the database holds %+v", c.id, w.rn(c), cur)
 			}
 		case oDBErr:
 			x := w.injected(c.err)
 			if c.kind == rGet || x.ent != ent || !overlapsExec(c, x) {
-				w.fail("db-error-unattributable", "call %d (%s) [%d,%d] returned %q of query %d run by call %d [%d,%d] which did not overlap it", c.id, readKindNames[c.kind], c.inv, c.ret, c.err, x.id, x.caller.id, x.caller.inv, x.caller.ret)
+				w.fail("db-error-unattributable", "call %d (%s) [%d,%d] returned %q of query %d run by call %d [%d,%d] which did not overlap it", c.id, w.rn(c), c.inv, c.ret, c.err, x.id, x.caller.id, x.caller.inv, x.caller.ret)
 			} else if x.caller != c {
 				w.r.Probe("singleflight-shared-error")
 			}
@@ -192,13 +192,13 @@ func (w *world) checkRead(st *step) {
 			}
 		case oStoreErr:
 			if !w.faulty && !risk {
-				w.fail("unexpected-error", "call %d (%s) returned %v in a history without store faults", c.id, readKindNames[c.kind], c.err)
+				w.fail("unexpected-error", "call %d (%s) returned %v in a history without store faults", c.id, w.rn(c), c.err)
 				break
 			}
 			w.r.Probe("store-error-returned")
 			// (5) a failing GET is reported without querying the database
 			if len(c.own) > 0 && (st.getFails(c) || (c.kind != rIndex && st.fault != fErrSET)) {
-				w.fail("query-on-store-error", "call %d (%s) returned the store error %v but ran %d database quer(ies)", c.id, readKindNames[c.kind], c.err, len(c.own))
+				w.fail("query-on-store-error", "call %d (%s) returned the store error %v but ran %d database quer(ies)", c.id, w.rn(c), c.err, len(c.own))
 			}
 			// nothing was injected on the node(s) this read talks to: a failure elsewhere is not its business
 			if w.allClean(st, w.touched(st, c)) {
@@ -206,7 +206,7 @@ func (w *world) checkRead(st *step) {
 				if st.otherDown {
 					class += ":other-node-down"
 				}
-				w.fail(class, "call %d (%s) returned %v; no fault was injected on the node(s) owning the row's keys during the read nor in the %v before it", c.id, readKindNames[c.kind], c.err, breakerWindow)
+				w.fail(class, "call %d (%s) returned %v; no fault was injected on the node(s) owning the row's keys during the read nor in the %v before it", c.id, w.rn(c), c.err, breakerWindow)
 			}
 		}
 		if st.otherDown && w.allClean(st, w.touched(st, c)) {
@@ -214,7 +214,7 @@ func (w *world) checkRead(st *step) {
 		}
 		if st.getFails(c) {
 			if c.out != oStoreErr && c.out != oCtxErr {
-				w.fail("store-error-not-reported", "call %d (%s): every store access failed (%s) but the call returned (%+v, %v)", c.id, readKindNames[c.kind], st.faultDesc(), c.got, c.err)
+				w.fail("store-error-not-reported", "call %d (%s): every store access failed (%s) but the call returned (%+v, %v)", c.id, w.rn(c), st.faultDesc(), c.got, c.err)
 			} else if st.anyOut() {
 				w.r.Probe("store-outage-during-read")
 			}
@@ -406,16 +406,28 @@ func (w *world) checkWrite(st *step) {
 	switch st.kind {
 	case kNoCache:
 		// the statement goes to the database connection as it is and the cache is left alone
-		if st.err != errNoSQL {
-			w.fail("no-cache-pass-through", "%s returned %v, the database connection returned %q", noCacheNames[st.nocache], st.err, errNoSQL)
+		name := "FindOneNoCache"
+		if w.monc {
+			// ... and the answer is the database's
+			switch {
+			case ent.ver == 0 && !errors.Is(st.err, w.errNF):
+				w.fail("no-cache-pass-through", "FindOneNoCache returned (%+v, %v), the collection holds no such document", st.monV, st.err)
+			case ent.ver != 0 && (st.err != nil || st.monV != w.curRow(ent)):
+				w.fail("no-cache-pass-through", "FindOneNoCache returned (%+v, %v), the collection holds %+v", st.monV, st.err, w.curRow(ent))
+			}
+		} else {
+			name = noCacheNames[st.nocache]
+			if st.err != errNoSQL {
+				w.fail("no-cache-pass-through", "%s returned %v, the database connection returned %q", name, st.err, errNoSQL)
+			}
 		}
 		if n := w.taskCmds[st.taskID]; n > 0 {
-			w.fail("no-cache-touched-the-store", "%s sent %d command(s) to the cache store", noCacheNames[st.nocache], n)
+			w.fail("no-cache-touched-the-store", "%s sent %d command(s) to the cache store", name, n)
 		}
 		if !st.pendPre && !w.cleanerPending(ent) {
 			for i, pre := range st.pre {
 				if pre.hitBy(post[i].at.Add(1)) && (!post[i].ex || post[i].val != pre.val) {
-					w.fail("no-cache-touched-the-store", "%s: key %s held %q before and holds %q (present: %v) after", noCacheNames[st.nocache], ent.keys()[i], pre.val, post[i].val, post[i].ex)
+					w.fail("no-cache-touched-the-store", "%s: key %s held %q before and holds %q (present: %v) after", name, ent.keys()[i], pre.val, post[i].val, post[i].ex)
 				}
 			}
 		}
@@ -427,6 +439,17 @@ func (w *world) checkWrite(st *step) {
 		}
 		if !errors.Is(st.err, st.dbErr) {
 			w.fail("exec-error-swallowed", "Exec whose database write failed with %q returned %v", st.dbErr, st.err)
+		}
+		if st.noMatch && errors.Is(st.dbErr, w.errNF) {
+			// a find-and-modify that matched no document is not a failed write: the database answered
+			// "no document" and nothing changed.  Whether the model invalidates the key nevertheless
+			// (it cannot tell this answer from the one of an upsert that inserted) is not the
+			// property's business: an invalidation too many never makes a read incoherent.  But an
+			// invalidation that was attempted is followed like any other (a failed DEL is retried by
+			// the cleaner and must be expected later).
+			w.r.Probe("monc-no-match-find-and-modify")
+			st.noDoc = true
+			break
 		}
 		// the write did not happen: nothing was invalidated
 		if !st.pendPre && !w.cleanerPending(ent) {
@@ -482,12 +505,18 @@ func (w *world) checkWrite(st *step) {
 	// invalidating operations: Exec with a successful write, DelCache.  A call whose context ended
 	// may report that (the write is in the database all the same: ExecCtx's "result and non-nil
 	// error"); it is an invalidation nevertheless
-	if st.err != nil {
-		if !st.ctxDied() {
-			w.fail("unexpected-error", "%s returned %v", stepKindNames[st.kind], st.err)
-		} else {
-			w.r.Probe("context-error-returned")
-		}
+	switch {
+	case st.err == nil:
+	case (st.upsertNoDoc || st.noDoc) && errors.Is(st.err, w.errNF):
+		// the database's answer to a find-and-modify that upserted (or matched nothing): there was no
+		// document before
+	case !st.ctxDied():
+		w.fail("unexpected-error", "%s returned %v", stepKindNames[st.kind], st.err)
+	default:
+		w.r.Probe("context-error-returned")
+	}
+	if w.monc {
+		w.checkMonResult(st)
 	}
 	if st.ctxDied() && st.kind != kDelCache {
 		w.r.Probe("db-write-took-effect-and-ctx-ended")
@@ -498,7 +527,7 @@ func (w *world) checkWrite(st *step) {
 	for _, e := range st.ents() {
 		all := true
 		for j, k := range e.keys() {
-			if st.kind == kDelCache && st.only > 0 && j != st.only-1 {
+			if !w.handed(st, j) {
 				all = false
 				continue // not handed to the call
 			}
@@ -510,7 +539,24 @@ func (w *world) checkWrite(st *step) {
 				}
 			}
 			clean := w.clean(st, o)
-			if clean && nDel == 0 {
+			attempted := false
+			for _, d := range w.delSent {
+				if d.harness && d.key == k && d.clk > st.cinv && d.clk < st.cret {
+					attempted = true
+				}
+			}
+			// (a DEL that failed before it left the client - ended context, open breaker, refused
+			// dial - is invisible here: with a fault or an ended context in the step the ordinary
+			// bookkeeping for a DEL that did not arrive applies, the cleaner may retry it)
+			if st.noDoc && !attempted && clean {
+				all = false
+				continue // no invalidation attempted, none needed: the entry is as it was
+			}
+			if st.upsertNoDoc && nDel == 0 && !attempted && clean {
+				w.monUpsertFinding(st, k, clean)
+				nDel = 1
+			}
+			if clean && nDel == 0 && !st.noDoc {
 				class := "invalidation-not-executed"
 				if st.anyOut() {
 					class += ":other-node-down"
@@ -547,6 +593,38 @@ func (w *world) checkWrite(st *step) {
 			e.idxLoaded, e.customTTL = false, 0
 		}
 	}
+}
+
+// handed: key j (0 primary, 1 index) of the step's rows is among the keys given to the call.
+func (w *world) handed(st *step, j int) bool {
+	switch {
+	case st.kind == kDelCache && st.only > 0:
+		return j == st.only-1
+	case w.monc && st.kind != kDelCache && len(st.more) == 0:
+		return j == 0 // the single-key write methods of monc.Model
+	}
+	return true
+}
+
+// monUpsertFinding: FindOneAndReplace / FindOneAndUpdate of monc.Model called with the upsert option
+// for a document that does not exist.  The server inserts the document and answers "no document"
+// (ReturnDocument defaults to Before and there was none); the driver turns that into
+// mongo.ErrNoDocuments, mon.Model returns it, and monc.Model takes it for a failed write: it
+// returns without deleting the key.  The write took effect through the model with the key, a
+// not-found marker cached for the key keeps being served.  Genuine go-zero behaviour, reported
+// under its own class (repaired in /repo 7ae0139).  If it returns nobody is going to delete the key - the
+// cleaner was not told either - so the harness removes it from the store itself and the history
+// goes on as if the invalidation had happened.
+func (w *world) monUpsertFinding(st *step, k string, clean bool) {
+	w.r.Probe("monc-upsert-no-document-key-not-deleted")
+	srv := w.ownerOf(k).srv
+	srv.Sync()
+	// reported where it shows: the key holds the not-found marker, which the next read would be served
+	if val, err := srv.MR().Get(k); clean && err == nil && srv.MR().Exists(k) {
+		w.fail(classMonUpsert, "%s(upsert) inserted row %d (the collection answered %q: there was no document before) and monc.Model returned %v without deleting key %s, which holds %q for another %v",
+			monMethodNames[st.mon], st.ent.idx, w.errNF, st.err, k, val, srv.MR().TTL(k))
+	}
+	srv.MR().Del(k)
 }
 
 func parseRow(val string) (row, bool) {
@@ -746,7 +824,7 @@ func (w *world) finish() {
 		}
 		st := &step{kind: kRead, ent: ent}
 		k := rPrimary
-		if ent.idx%2 == 1 {
+		if ent.idx%2 == 1 && !w.monc {
 			k = rIndex
 		}
 		st.readers = []*call{{kind: k}}
